@@ -42,16 +42,17 @@ func init() {
 }
 
 type c17Scenario struct {
-	Ctor     string            `json:"constructor"`
-	Method   string            `json:"generic_method,omitempty"`
-	Template string            `json:"template"`
-	Params   map[string]string `json:"path_params"`
-	Header   map[string]string `json:"default_header,omitempty"`
-	BodyKind string            `json:"body"` // none | obj
-	Fault    string            `json:"fault"`
-	Evals    int               `json:"evaluations"`
-	Via      string            `json:"via"` // Eval | Subscribe
-	TornAt   int               `json:"torn_at,omitempty"`
+	Ctor      string            `json:"constructor"`
+	Method    string            `json:"generic_method,omitempty"`
+	Template  string            `json:"template"`
+	Params    map[string]string `json:"path_params"`
+	Header    map[string]string `json:"default_header,omitempty"`
+	BodyKind  string            `json:"body"` // none | obj
+	Fault     string            `json:"fault"`
+	Evals     int               `json:"evaluations"`
+	Via       string            `json:"via"` // Eval | Subscribe
+	TornAt    int               `json:"torn_at,omitempty"`
+	Neighbour bool              `json:"concurrent_json_neighbour,omitempty"`
 
 	h      *Hist
 	probes map[string]int
@@ -186,6 +187,7 @@ func genC17(t *simrt.Tape, tier string) Scenario {
 		sc.Evals = 6
 	}
 	sc.Via = []string{"Eval", "Subscribe"}[t.Choose(2)]
+	sc.Neighbour = t.Bool(1, 4)
 	return sc
 }
 
@@ -275,18 +277,10 @@ func (sc *c17Scenario) Run(s *simrt.Sim) {
 	if sc.Fault == "serializer" {
 		api.RequestSerializerForJSON = func(body interface{}) (io.Reader, error) { return nil, errC17Serializer }
 		api.RequestSerializerForMultipart = func(body *network.MultipartForm) (io.Reader, string, error) { return nil, "", errC17Serializer }
-	} else {
-		inner := api.RequestSerializerForJSON
-		api.RequestSerializerForJSON = func(body interface{}) (io.Reader, error) {
-			r, err := inner(body)
-			if err != nil || r == nil {
-				return r, err
-			}
-			b, _ := io.ReadAll(r)
-			serialized = append(serialized, b)
-			return bytes.NewReader(b), nil
-		}
 	}
+	// (otherwise the library's own serializers are used untouched: the request body the transport reads
+	// must be what the serializer produced for THIS evaluation, also when another JSON request is being
+	// prepared at the same time, see the concurrent neighbour below)
 	if sc.Fault == "deserializer-nil" {
 		api.ResponseDeserializer = func(body []byte, target interface{}) (interface{}, error) { return nil, errC17Deserializer }
 	}
@@ -347,6 +341,35 @@ func (sc *c17Scenario) Run(s *simrt.Sim) {
 	if len(tr.recs) != 0 {
 		add("lazy", "request-sent-at-definition", fmt.Sprintf("%d requests were sent before the MonadIO was evaluated", len(tr.recs)))
 	}
+	// a neighbour: another goroutine evaluating an unrelated JSON API (own SimpleHTTP, own transport) at the
+	// same time; both share nothing but the package-level serializer
+	var neighbour *simrt.Thread
+	if sc.Neighbour {
+		ntr := &c17Transport{sc: sc}
+		napi := network.NewSimpleAPIWithSimpleHTTP("http://neighbour.example.test", network.NewSimpleHTTPWithClientAndInterceptors(&http.Client{Transport: ntr}))
+		nbody := &c17Body{Name: "n2", N: 9}
+		neighbour = s.Go("neighbour", func() {
+			for i := 0; i < 3; i++ {
+				before := len(ntr.recs)
+				op := h.Do("neighbour", "Eval", i, func() (interface{}, error) {
+					network.APIMakePostJSONBody[*c17Body, c17Resp](napi, "n")(nil, nbody, &c17Resp{}).Eval()
+					return nil, nil
+				})
+				if op.Panic == "" && len(ntr.recs) == before+1 {
+					want, _ := json.Marshal(nbody)
+					if !bytes.Equal(ntr.recs[before].body, want) {
+						add("body", "neighbour-json-body-differs", fmt.Sprintf("a concurrent JSON request sent body %q, its serializer output is %q", ntr.recs[before].body, want))
+					}
+				}
+				s.Yield()
+			}
+		})
+	}
+	defer func() {
+		if neighbour != nil {
+			s.WaitUntilTimeout(neighbour.Done, time.Minute)
+		}
+	}()
 	var hd *fpgo.HandlerDef
 	if sc.Via == "Subscribe" {
 		hd = fpgo.Handler.New()
